@@ -7,7 +7,7 @@
 mod verif_c19_prio2_verif {
     use super::*;
     use crate::field::verif_field_util::*;
-    use crate::field::FieldPrio2;
+    use crate::field::{FieldElement, FieldPrio2};
     use crate::verif_common::*;
 
     const MAXP: usize = 8;
